@@ -13,28 +13,56 @@ Proof.
   rewrite IH, Concat_length.lenN_length. lia.
 Qed.
 
-Lemma multi_stitched (cs : list scfg) (ns : list N) (scheds : list (list mblock * bool)) m0 rest expected :
-  length cs = length ns -> length scheds = length ns -> length (m0 :: rest) = length ns ->
+(* ---- the general form: first part of any (magic-free) configuration, later parts with a window
+   field of wl bits (1, 4, 7 or 14) ---- *)
+Lemma multi_stitched_w wl c0 n0 bs0 fe0 m0 (cs : list scfg) (ns : list N) (scheds : list (list mblock * bool)) rest expected :
+  Concat_length.wl_ok wl ->
+  scfg_ok c0 = true -> s_magic c0 = false -> schedule_ok c0 n0 bs0 fe0 = true ->
+  stream_bytes c0 n0 bs0 fe0 = Some (Concat.lenN m0) ->
+  length cs = length ns -> length scheds = length ns -> length rest = length ns ->
   (forall i c n bs fe m, nth_error cs i = Some c -> nth_error ns i = Some n ->
-     nth_error scheds i = Some (bs, fe) -> nth_error (m0 :: rest) i = Some m ->
-     scfg_ok c = true /\ s_magic c = false /\ schedule_ok c n bs fe = true
+     nth_error scheds i = Some (bs, fe) -> nth_error rest i = Some m ->
+     scfg_ok c = true /\ s_magic c = false /\ s_wbits c = wl /\ schedule_ok c n bs fe = true
      /\ stream_bytes c n bs fe = Some (Concat.lenN m)) ->
-  0 < sumN ns -> sumN ns < 2 ^ 62 -> N.of_nat (length ns) <= 22 ->
-  (5 <= length m0)%nat -> Forall Concat_length.catable_part rest ->
+  0 < n0 + sumN ns -> n0 + sumN ns < 2 ^ 62 -> N.of_nat (length ns) + 1 <= 22 ->
+  (5 <= length m0)%nat -> Forall (Concat_length.catable_part wl) rest ->
   ConcatSpec.concat_spec None (m0 :: rest) = Some expected ->
-  exists B, max_compressed_size_multi (sumN ns) (N.of_nat (length ns)) = Ok B /\ Concat.lenN expected <= B.
+  exists B, max_compressed_size_multi (n0 + sumN ns) (N.of_nat (length ns) + 1) = Ok B /\ Concat.lenN expected <= B.
 Proof.
-  intros Lc Ls Lm Hall H0 Hn Hth H5 Hcat Hspec.
-  apply (multi_given_concat cs ns scheds (map Concat.lenN (m0 :: rest)) (Concat.lenN expected)); try assumption.
-  - rewrite map_length. exact Lm.
-  - intros i c n bs fe t E1 E2 E3 E4.
-    destruct (nth_error (m0 :: rest) i) as [m|] eqn:Em.
-    + rewrite (map_nth_error Concat.lenN i (m0 :: rest) Em) in E4. injection E4 as <-.
-      apply (Hall i c n bs fe m); assumption.
-    + apply nth_error_None in Em. assert (Hnone : nth_error (map Concat.lenN (m0 :: rest)) i = None).
-      { apply nth_error_None. rewrite map_length. exact Em. }
-      rewrite Hnone in E4. discriminate.
-  - pose proof (Concat_length.concat_len_catable m0 rest expected H5 Hcat Hspec) as Hl.
-    rewrite sumN_map_lenN, Concat_length.lenN_length. rewrite <- Lm. cbn [length].
-    remember (Concat_length.sum_length (m0 :: rest)) as sl. lia.
+  intros Hwl Hc0 Hm0 Hs0 Ht0 Lc Ls Lr Hall H0 Hn Hth H5 Hcat Hspec.
+  assert (Hth' : N.of_nat (length ns) + 1 < 2 ^ 32).
+  { eapply N.le_lt_trans; [exact Hth|]. vm_compute. reflexivity. }
+  destruct (multi_statement (n0 + sumN ns) (N.of_nat (length ns) + 1) H0 Hn Hth') as (v & Hv & Hm).
+  destruct (bound_statement (n0 + sumN ns)) as (_ & _ & _ & Hr). destruct (Hr H0 Hn) as (v' & Hv' & Hlo & _).
+  rewrite Hv in Hv'. injection Hv' as <-.
+  exists (v + 8 * (N.of_nat (length ns) + 1)). split; [exact Hm|].
+  assert (Hn0 : n0 < 2 ^ 62) by lia.
+  pose proof (part_within_allowance c0 n0 bs0 fe0 _ Hc0 Hm0 Hn0 Hs0 Ht0) as Hp0. unfold part_allowance in Hp0.
+  assert (Hrest : sumN (map Concat.lenN rest) <= sumN ns + 4 * (sumN ns / 2 ^ 14) + (6 + (wl + 27) / 8) * N.of_nat (length ns)).
+  { apply (rest_parts_sum wl ns cs scheds (map Concat.lenN rest)); try assumption.
+    - rewrite map_length. exact Lr.
+    - intros i c n bs fe t E1 E2 E3 E4.
+      destruct (nth_error rest i) as [m|] eqn:Em.
+      + rewrite (map_nth_error Concat.lenN i rest Em) in E4. injection E4 as <-.
+        apply (Hall i c n bs fe m); assumption.
+      + apply nth_error_None in Em. assert (Hnone : nth_error (map Concat.lenN rest) i = None).
+        { apply nth_error_None. rewrite map_length. exact Em. }
+        rewrite Hnone in E4. discriminate.
+    - lia. }
+  pose proof (Concat_length.concat_len_catable wl m0 rest expected Hwl H5 Hcat Hspec) as Hl.
+  cbn [Concat_length.sum_length] in Hl.
+  rewrite sumN_map_lenN in Hrest. rewrite !Concat_length.lenN_length in *.
+  assert (Hsb : N.of_nat (Concat_length.src_bytes wl) = (wl + 27) / 8) by (unfold Concat_length.src_bytes; lia).
+  pose proof (div_add_le n0 (sumN ns) (2 ^ 14)) as Hd.
+  assert (Hc : 2 ^ 14 <> 0) by (vm_compute; discriminate). specialize (Hd Hc).
+  rewrite <- Lr in *.
+  remember (Concat_length.sum_length rest) as sl. remember (Concat_length.src_bytes wl) as sb.
+  remember ((wl + 27) / 8) as sbN. remember (length rest) as T.
+  remember (n0 / 2 ^ 14) as k0. remember (sumN ns / 2 ^ 14) as kr. remember ((n0 + sumN ns) / 2 ^ 14) as k.
+  remember (sumN ns) as nr. remember (length expected) as E. remember (length m0) as l0.
+  assert (HX : N.of_nat (sb * T) = sbN * N.of_nat T) by lia.
+  remember (sb * T)%nat as X. remember (sbN * N.of_nat T) as XN.
+  assert (Hl' : (8 * E + 8 * X <= 8 * (l0 + sl) + 25 * T + 7)%nat) by lia.
+  assert (Hrest' : N.of_nat sl <= nr + 4 * kr + 6 * N.of_nat T + XN) by lia.
+  lia.
 Qed.
